@@ -59,7 +59,7 @@ def taint_rules(facts, rid, text, fn_filter, floor_tainted):
                 r.violate(key + "/premise", f"premise of the exception for `{s.fn}` no longer holds: PosUsize is constructed in {bad or 'no place'}")
         r.examined((s.fn, s.kind, s.op, s.sp), True, {"fn": s.fn, "op": f"{s.kind} {s.op} on {s.ty}", "source": s.source, "at": s.sp, "verdict": how or "UNGUARDED"})
         if not ok:
-            what = {"S1": "unchecked integer arithmetic", "S2": "unguarded float-to-integer cast (NaN becomes 0, out-of-range saturates)", "S3": "lossy integer cast"}[s.kind]
+            what = {"S1": "unchecked integer arithmetic", "S2": "float-to-integer cast not guarded against NaN / out-of-range (NaN becomes 0, out-of-range saturates)" + (f" [{s.detail}]" if s.detail else ""), "S3": "lossy integer cast"}[s.kind]
             r.violate(key, f"{what} `{s.op}` on a user-controlled number ({s.source}) in `{s.fn}`", where=s.sp)
     r.notes.append(f"user-number locals tracked: {ntainted}; sinks examined: {r.instances}; propagation is deliberately conservative (unknown calls return untainted values)")
     return r.finish(), T
